@@ -19,6 +19,7 @@ CONSTANTS Steps,        \* admissible steps <<dx, dy>> (integer length)
           MaxSegs,      \* polylines have 1..MaxSegs segments
           MergeSegs,    \* merged lanes have 1..MergeSegs segments each
           N, Lens, Ranges, Starts, Modes, Den, DEV_NoLoopGuard,
+          Units, Dtypes,           \* array-representation dimension: length units sqrt(U), dtype / layout tokens
           MaxMut,                  \* "hist" mode: histories with at most MaxMut mutations
           DEV_SetterKeepsDistance  \* TRUE: the center_vertices setter keeps the cached distance (as shipped)
 
@@ -144,9 +145,11 @@ LawRigidPoint == IsGeom /\ Len(pa) <= 3 => \A m \in MoveToks : LawRigid(LaneOf(p
 HistStretch  == mode = "hist" => /\ Length(Stretch(lane.c)) = 2 * Length(lane.c)
                                  /\ Joint(lane, SuccLane(lane)) /\ WellFormed(SuccLane(lane).c)
 
+LawSimilarity == IsGeom /\ Len(pa) <= 3 => \A u \in Units : LawSimilar(LaneOf(pa), u, s2, 2)
+
 IsRoute == mode = "route"
-InvResult == IsRoute /\ done => ValidRoutes(G, len, start, range, final)
-InvSound  == IsRoute => RoutesClause(G, len, start, range, final \o paths \o pnext) \in {"", "cover"}
+InvResult == IsRoute /\ done => ValidRoutes(G, len, start, range, final, 1)
+InvSound  == IsRoute => RoutesClause(G, len, start, range, final \o paths \o pnext, 1) \in {"", "cover"}
 InvBound  == IsRoute => rnd < N /\ \A k \in 1..Len(paths) : Len(paths[k]) = rnd + 1     \* the variant
 InvLens   == IsRoute => Len(plens) = Len(paths) /\ \A k \in 1..Len(paths) : plens[k] = Acc(len, paths[k], Len(paths[k]))
 Termination == <>done
@@ -157,6 +160,10 @@ LaneJ(poly) == [l |-> LeftOf(poly), c |-> poly, r |-> RightOf(poly)]
 Emit ==
   /\ (mode = "geom" /\ s2 = 0) =>
         PrintT(<<"CASE", ToJson([kind |-> "poly", c |-> pa, l |-> LeftOf(pa), r |-> RightOf(pa), sd |-> 2, den |-> Den])>>)
+  /\ (mode = "geom" /\ s2 = 0 /\ Len(pa) <= 4) =>        \* the same lattice polyline in every unit and array representation
+        \A u \in Units : \A d \in Dtypes :
+          PrintT(<<"CASE", ToJson([kind |-> "dpoly", c |-> pa, l |-> LeftOf(pa), r |-> RightOf(pa),
+                                   U |-> u, p |-> SimOf(u)[1], q |-> SimOf(u)[2], dt |-> d])>>)
   /\ (mode = "merge" /\ s2 = 0) =>
         PrintT(<<"CASE", ToJson([kind |-> "merge", a |-> LaneJ(pa), b |-> LaneJ(pb), den |-> Den])>>)
   /\ mode = "hist" =>
